@@ -6,6 +6,7 @@ import Driver.TreeIO
 import AstGrepVerif.Model.Rule
 import AstGrepVerif.Spec.RuleRef
 import AstGrepVerif.Model.Scan
+import AstGrepVerif.Spec.PureRule
 
 open Lean AGV
 
@@ -268,5 +269,36 @@ def opFixedString : SHandler := fun st a => do
 
 def scanOps : List (String × SHandler) := [
   ("find_all", opFindAll), ("combined", opCombined), ("fixed_string", opFixedString)]
+
+end Driver
+
+namespace Driver
+
+open AGV
+
+/-- C04 oracle: the implementation's result (matched node and bindings) on every node equals the
+model's result for the rule with every sub-rule isolated (`Spec.isolate`) -/
+def opOracleIsolate : SHandler := fun st a => do
+  let d ← getDoc st a
+  let cj ← a.getObjVal? "core"
+  let core ← parseCore cj
+  let (locals, globals) ← parseRegistry cj
+  let rx ← parseRegexTable (← a.getObjVal? "regex")
+  let ctx : RCtx := { src := d.src, root := d.tree, regex := regexOracle rx,
+                      locals := locals.map fun (k, r) => (k, Spec.isolate r),
+                      globals := globals.map fun (k, c) => (k, Spec.isolateCore c) }
+  let ids ← (← getArr a "nodes").toList.mapM fun x => x.getNat?
+  let fuel := 2 * ruleFuel d.tree
+  let results := ids.map fun id =>
+    match d.nodes[id]? with
+    | none => Json.str "unknown-node"
+    | some n =>
+      match matchCore ctx fuel (Spec.isolateCore core) n Env.empty with
+      | .ok (some m, env) => Json.mkObj [("m", jNat m.id), ("env", envJson env)]
+      | .ok (none, _) => Json.mkObj [("m", Json.null), ("env", envJson Env.empty)]
+      | .error e => abnJson e
+  pure (st, Json.arr results.toArray)
+
+def isolateOps : List (String × SHandler) := [("oracle:isolate", opOracleIsolate)]
 
 end Driver
